@@ -104,6 +104,17 @@ chk("C08", "model_checking",
     "TLA+ spec (RtrServerConn) model-checked by TLC incl. liveness; state-cover scripts replayed into the real server; impl->spec trace validation",
     "DESIGN.md §3 C08")
 
+chk("C07", "model_checking",
+    "RtrLayout gives the PDU layout table as data (Enc, length-field law) and Need, what each reader does after the header; RtrWire "
+    "is the reader automaton over a stream that ends after `avail` bytes with arbitrary chunking; TLC checks bounded consumption, "
+    "ok <=> complete, and termination (liveness) for every entry point x type x version x length field x truncation point, and the "
+    "layout laws for every PDU type x version x action x boundary fields. Every case is replayed: bytes written by the library = "
+    "table, read back = same item, every truncated/corrupted stream through the real readers with 3 chunkings while counting "
+    "consumed bytes and end-of-stream polls; random full-range PDUs and cut sequences are validated by Trace_RtrWire.",
+    "Spinning = more than 64 polls after end of stream; memory on huge length fields not measured.",
+    "TLA+ spec (RtrLayout/RtrWire) model-checked by TLC incl. liveness; exhaustive spec->impl replay; impl->spec trace validation",
+    "DESIGN.md §3 C07")
+
 ALL = ["C%02d" % i for i in range(1, 18)]
 
 
